@@ -155,6 +155,83 @@ def passes_correspondence(accepted_and_rejected):
             "ordering_stalemates_found": n_os_stalemates, "complex_borrow_check": cx, "disagreements": dis}
 
 
+# ---- L3d: the invocation loop of every generated stage function (hook 8ff7637) vs Pxv.Bind.resolveStage ---------------
+
+def _bind_ty(text, table):
+    """'CanonicalType(&'a mut app::T)' -> {"r": true, "i": {"b": k}}; base types are numbered by their text."""
+    t = text.strip()
+    if t.startswith("CanonicalType(") and t.endswith(")"):
+        t = t[len("CanonicalType("):-1].strip()
+    def go(t):
+        t = t.strip()
+        if t.startswith("&"):
+            t = t[1:].lstrip()
+            m = re.match(r"'[A-Za-z_][A-Za-z_0-9]*\s+", t)
+            if m:
+                t = t[m.end():]
+            mut = False
+            if t.startswith("mut "):
+                mut, t = True, t[4:]
+            return {"r": mut, "i": go(t)}
+        return {"b": table.setdefault(t, len(table))}
+    return go(t)
+
+
+def _bind_expr(text, ids):
+    t = text.replace(" ", "")
+    if t.startswith("&mut"):
+        return {"b": ids.get(t[4:], -1), "mut": True}
+    if t.startswith("&"):
+        return {"b": ids.get(t[1:], -1), "mut": False}
+    return {"n": ids.get(t, -1)}
+
+
+def bindings_correspondence(programs):
+    lines, meta = [], []
+    for o in programs:
+        for r in o["dump"]:
+            if r.get("ev") != "stage_bindings":
+                continue
+            table, ids = {}, {}
+            for ident, _, _ in r["initial"]:
+                ids.setdefault(ident, len(ids))
+            ids.setdefault(r["response"][0], 10 ** 6)
+            req = {"resp": {"id": ids[r["response"][0]], "ty": _bind_ty(r["response"][1], table), "mut": False},
+                   "initial": [{"id": ids[i], "ty": _bind_ty(t, table), "mut": m} for i, t, m in r["initial"]],
+                   "calls": [{"post": c["post"], "wants": [_bind_ty(t, table) for t, _ in c["args"]]} for c in r["calls"]]}
+            lines.append(json.dumps(req))
+            meta.append((o["name"], r, ids))
+    outs = [json.loads(x) for x in pxvlib.run_model("bind", lines)] if lines else []
+    dis, oracle_fail = [], []
+    stats = {"stages": len(lines), "invocations": 0, "arguments": 0, "by_name": 0, "borrowed": 0, "borrowed_mut": 0,
+             "reborrow_of_mut_binding": 0, "parameters_marked_mut": 0}
+    for (name, r, ids), ln, mo in zip(meta, lines, outs):
+        real_exprs = [[_bind_expr(e, ids) for _, e in c["args"]] for c in r["calls"]]
+        real_final = [{"id": ids[i], "mut": m} for i, _, m in r["final"]]
+        stats["invocations"] += len(r["calls"])
+        for c, es in zip(r["calls"], real_exprs):
+            for (t, _), e in zip(c["args"], es):
+                stats["arguments"] += 1
+                if "n" in e:
+                    stats["by_name"] += 1
+                else:
+                    stats["borrowed_mut" if e["mut"] else "borrowed"] += 1
+        stats["parameters_marked_mut"] += sum(1 for b in real_final if b["mut"])
+        if mo.get("r") != "ok" or mo["exprs"] != real_exprs or mo["final"] != real_final:
+            dis.append({"program": name, "stage": r["stage"], "request": json.loads(ln), "real_exprs": real_exprs,
+                        "real_final": real_final, "model": mo})
+        # model-free reading of stage_invocations_well_typed: `&mut param` needs `mut param` in the signature the code
+        # generator renders from the final bindings (a parameter that already is a `&mut T` is passed by name)
+        final_mut = {i: m for i, _, m in r["final"]}
+        for c in r["calls"]:
+            for t, e in c["args"]:
+                e = e.replace(" ", "")
+                if e.startswith("&mut") and e[4:] in final_mut and not final_mut[e[4:]]:
+                    oracle_fail.append({"program": name, "stage": r["stage"], "what": "the stage hands out `&mut %s` but its signature declares `%s` without `mut` (rustc: E0596)" % (e[4:], e[4:]),
+                                        "record": r})
+    return {"stats": stats, "disagreements": dis, "oracle_failures": oracle_fail}
+
+
 def densify(g, adjacency_order=False):
     """Node ids in the dump are petgraph indices (may have gaps after removals): renumber 0..n-1.
     adjacency_order: list the edges per destination, oldest first (the reverse of the adjacency list `inadj`)."""
@@ -370,6 +447,12 @@ def run(R):
     # L3c: the mirrored clone-insertion passes vs the graphs the real passes produced
     pc = passes_correspondence(list(obs.values()))
     R.coverage["passes_correspondence"] = {k: (v if k != "disagreements" else len(v)) for k, v in pc.items()}
+    # L3d: the invocation loop of every generated stage function vs Pxv.Bind.resolveStage
+    bc = bindings_correspondence(list(obs.values()))
+    R.coverage["stage_bindings_correspondence"] = {"stats": bc["stats"], "disagreements": len(bc["disagreements"]), "oracle_failures": len(bc["oracle_failures"])}
+    for f in bc["oracle_failures"][:3]:
+        n_viol += 1
+        R.violation("implementation breaks the property: " + f["what"], {"program": f["program"], "stage": f["stage"], "record": f["record"]})
     # L3b
     sv = spec_vs_rustc(R, 400 if R.tier == "quick" else 20000)
     R.coverage["spec_vs_rustc"] = {k: (v if k != "disagreements" else len(v)) for k, v in sv.items()}
@@ -388,15 +471,19 @@ def run(R):
     if pc["disagreements"]:
         broken.append("correspondence `multipleConsumers`/`moveWhileBorrowed`/`resolveStalemates`: the mirrored pass and the real pass disagree on %d/%d graphs, first: %s" % (
             len(pc["disagreements"]), pc["evaluations"], json.dumps(pc["disagreements"][0])[:700]))
+    if bc["disagreements"]:
+        broken.append("correspondence `resolveStage` (Bindings::get_expr_for_type): the modelled invocation loop and the real one disagree on %d/%d stage functions, first: %s" % (
+            len(bc["disagreements"]), bc["stats"]["stages"], json.dumps(bc["disagreements"][0])[:700]))
     if sv["disagreements"]:
         broken.append("correspondence `OwnSafe vs rustc`: %d/%d random bodies judged differently, first: %s" % (
             len(sv["disagreements"]), sv["cases"], json.dumps(sv["disagreements"][0])[:500]))
     if sv["non_borrowck_errors"]:
         broken.append("spec-vs-rustc harness produced non-borrowck errors: %s" % sv["non_borrowck_errors"][:2])
-    R.coverage["model_vs_impl_disagreements"] = len(order_bad) + len(spec_disagree) + len(sv["disagreements"]) + len(pc["disagreements"])
+    R.coverage["model_vs_impl_disagreements"] = len(order_bad) + len(spec_disagree) + len(sv["disagreements"]) + len(pc["disagreements"]) + len(bc["disagreements"])
     if broken and n_viol == 0:
         # search mode already happened: every accepted program of this run was `cargo check`ed
         R.violation(" | ".join(broken), {"broken": broken, "theorem_module": "Pxv.Thm.C01",
                                           "order_bad": order_bad[:2], "spec_disagree": spec_disagree[:2],
                                           "rustc_disagreements": sv["disagreements"][:3],
-                                          "pass_disagreements": pc["disagreements"][:2]}, no_failing_input=True)
+                                          "pass_disagreements": pc["disagreements"][:2],
+                                          "stage_bindings_disagreements": bc["disagreements"][:2]}, no_failing_input=True)
